@@ -1876,3 +1876,334 @@ def c11(tier, rng):
             res.oracle_failures.append({'sig': sig, 'what': f'{api} on {shape} nesting of depth {d}: the process died (status {rc})', 'reqs': [f'--deep {api} {shape} {d}'], 'input': f'{shape} x {d}'})
     res.samples = [{'api': j[0], 'shape': j[1], 'depth': j[2], 'status': rc} for j, rc in list(zip(jobs, rcs))[:6]]
     return res
+
+
+# ---------------------------------------------------------------------------------------------
+# renderer-based properties: C03, C04, C05, C06, C13
+import render as R
+
+
+def suite_tree_events(tree):
+    """expected events of a yaml-test-suite `tree:` field in the repo harness's normalisation"""
+    anchors = []
+    out = []
+    for ln in tree.split('\n'):
+        s = ln.strip()
+        if not s:
+            continue
+        out.append(s)
+    return out
+
+
+def ev_to_suite(line):
+    """implementation events -> yaml-test-suite tree lines (as parser/tests/yaml-test-suite.rs prints them)"""
+    items, tail = split_line(line)
+    out = []
+
+    def esc(t):
+        for a, b in (('\\', '\\\\'), ('\n', '\\n'), ('\r', '\\r'), ('\x08', '\\b'), ('\t', '\\t')):
+            t = t.replace(a, b)
+        return t
+
+    def tag(x):
+        if x == '-':
+            return ''
+        h, _, s = x.partition('!')
+        return f' <{unhx(h)}{unhx(s)}>'
+    for it in items:
+        k = it.rpartition('@')[0].split(':')
+        if k[0] == 'SS':
+            out.append('+STR')
+        elif k[0] == 'SE':
+            out.append('-STR')
+        elif k[0] == 'DS':
+            out.append('+DOC')
+        elif k[0] == 'DE':
+            out.append('-DOC')
+        elif k[0] == 'SQ':
+            out.append('+SEQ' + (f' &{k[1]}' if k[1] != '0' else '') + tag(k[2]))
+        elif k[0] == 'SQE':
+            out.append('-SEQ')
+        elif k[0] == 'MP':
+            out.append('+MAP' + (f' &{k[1]}' if k[1] != '0' else '') + tag(k[2]))
+        elif k[0] == 'MPE':
+            out.append('-MAP')
+        elif k[0] == 'AL':
+            out.append(f'=ALI *{k[1]}')
+        elif k[0] == 'SC':
+            kind = {'P': ':', 'S': "'", 'D': '"', 'L': '|', 'F': '>'}[k[1]]
+            out.append('=VAL' + (f' &{k[2]}' if k[2] != '0' else '') + tag(k[3]) + f' {kind}' + esc(unhx(k[4])))
+    return out, tail
+
+
+def suite_expected(tree):
+    """the `tree:` expectation, normalised exactly as the repository's own yaml-test-suite harness does
+    (anchor names to numbers, flow/block style markers and explicit-document markers dropped)"""
+    anchors = []
+    out = []
+    for s in tree.split('\n'):
+        s = s.lstrip()
+        if not s:
+            continue
+        if '&' in s:
+            start = s.find('&')
+            if ':' not in s[:start]:
+                ln = s[start:].find(' ')
+                ln = ln if ln >= 0 else len(s[start:])
+                anchors.append(s[start + 1:start + ln])
+                s = s.replace(s[start:start + ln], f'&{len(anchors)}')
+        if s.startswith('=ALI'):
+            start = s.find('*')
+            name = s[start + 1:]
+            idx = max(i for i, v in enumerate(anchors) if v == name)
+            s = s.replace(s[start:], f'*{idx + 1}')
+        if s == '+DOC ---':
+            s = '+DOC'
+        elif s == '-DOC ...':
+            s = '-DOC'
+        elif s.startswith('+SEQ []'):
+            s = s.replace('+SEQ []', '+SEQ', 1)
+        elif s.startswith('+MAP {}'):
+            s = s.replace('+MAP {}', '+MAP', 1)
+        elif s == '=VAL :':
+            s = '=VAL :~'
+        out.append(s)
+    return out
+
+
+@prop('C03', ["the expectation is the abstract tree the renderer started from (lib/render.py, written from the YAML 1.2 productions, independent of the parser) and, for the official test suite, its tree: field",
+              "omitted nodes are expected as the plain scalar '~' with no anchor and no tag (the property's null scalar)",
+              "theorems registered: parser-level (token language of collections -> events); the scanner side of C03 rests on correspondence + this oracle"])
+def c03(tier, rng):
+    res = Result()
+    res.rule = "streams rendered from random abstract trees (depth <= 4; block/flow, compact/next-line, explicit keys, sequences at the indentation of their key, comments, blank lines, node properties, aliases, 1-2 documents, markers, %YAML) + the non-error yaml-test-suite cases; non-trivial = at least one collection; distinct by text"
+    res.corr_ops = ['evt str (model pipeline) on every rendered stream']
+    r = rng.fork('c03')
+    cases = [R.render_stream(r) for _ in range(20000 if tier == 'quick' else 500000)]
+    reqs = [f'evt str 128 0 {hx(t)}' for t, _ in cases]
+    suite = [c for c in load_suite() if not c['fail'] and c['tree']]
+    sreqs = [f'evt str 128 0 {hx(c["yaml"])}' for c in suite]
+    impl = run_impl(reqs + sreqs)
+    nm = len(reqs) if tier == 'thorough' else 8000
+    model = run_model(reqs[:nm] + sreqs)
+    for n, (t, exp) in enumerate(cases):
+        res.evaluations += 1
+        a = impl[n]
+        if any(e[0] in ('SQ', 'MP') for e in exp):
+            res.nt(t)
+        got, tail = R.parse_events(a) if 'PANIC' not in a else ([], ['PANIC'])
+        # omitted nodes: the renderer never omits nodes except empty plain scalars it avoids; DS explicitness compared too
+        if tail[0] != 'DONE' or got != exp:
+            first = next((i for i, (x, y) in enumerate(zip(got + [None] * len(exp), exp)) if x != y), None)
+            res.oracle_failures.append({'sig': usig(t), 'what': 'a rendered well-formed stream does not parse to its tree' + (f' (rejected: {unhx(tail[2])})' if tail[0] == 'ERR' else f' (first difference at event {first})'),
+                                        'reqs': [reqs[n]], 'input': t[:600], 'detail': {'got': str(got[first] if first is not None and first < len(got) else None), 'want': str(exp[first] if first is not None else None)}})
+        if n < nm and model[n] != a and 'PANIC' not in a:
+            diff(res, reqs[n], a, model[n], 'evt')
+        if n % 4001 == 0:
+            res.samples.append({'text': t[:200]})
+    for n, c in enumerate(suite):
+        res.evaluations += 1
+        a = impl[len(reqs) + n]
+        res.nt(c['yaml'])
+        got, tail = ev_to_suite(a)
+        want = suite_expected(c['tree'])
+        if tail[0] != 'DONE' or got != want:
+            res.oracle_failures.append({'sig': usig(c['yaml']), 'what': f"yaml-test-suite case {c['id']}: events differ from the tree: expectation", 'reqs': [sreqs[n]], 'input': c['yaml'][:400],
+                                        'detail': {'got': got[:40], 'want': want[:40]}})
+        if model[nm + n] != a:
+            diff(res, sreqs[n], a, model[nm + n], 'evt (suite)')
+    return res
+
+
+@prop('C04', ["the expectation is the target string the presentation was derived from (lib/render.py present_scalar: YAML 1.2 folding and escape rules)",
+              "theorems registered: escape table and hex-escape decoding at function level; see Props/C04.lean"])
+def c04(tier, rng):
+    res = Result()
+    res.rule = "target strings over a tricky-character alphabet (length <= 3 exhaustively over 12 symbols, random up to 16 over 29) x style x random per-character escape/literal choice, fold placement, continuation indentation and trailing padding x 7 syntactic contexts; non-trivial = presentation differs from the target; distinct by document text"
+    res.corr_ops = ['evt str on every presentation']
+    r = rng.fork('c04')
+    A12 = ['a', ' ', '\n', ':', '#', "'", '"', '\\', 'é', '-', '\t', ',']
+    targets = list(exhaustive(A12, 3))
+    for _ in range(6000 if tier == 'quick' else 300000):
+        targets.append(''.join(r.choice(R.TRICKY) for _ in range(r.randint(1, 16))))
+    cases = []
+    for tg_ in targets:
+        for _ in range(2):
+            ctx = r.choice(R.CONTEXTS)
+            style = r.choice('DDSPP')
+            key = ctx in ('key', 'flowkey')
+            flow = ctx.startswith('flow')
+            if style == 'P' and not R.plain_allowed(tg_, flow, key):
+                style = 'D'
+            ci = {'top': 1, 'value': 2, 'item': 2, 'key': 0, 'flowitem': 1, 'flowkey': 0, 'flowvalue': 2}[ctx]
+            pres = R.present_scalar(r, tg_, style, ci, multiline=not key)
+            if pres is None:
+                continue
+            if style == 'P' and flow and any(c in pres for c in ',[]{}'):
+                continue
+            if key and len(pres) > 1000:
+                continue
+            doc, idx = R.in_context(ctx, pres)
+            cases.append((tg_, style, ctx, doc, idx))
+    reqs = [f'evt str 128 0 {hx(d)}' for _, _, _, d, _ in cases]
+    impl = run_impl(reqs)
+    nm = len(reqs) if tier == 'thorough' else 12000
+    model = run_model(reqs[:nm])
+    for n, (tg_, style, ctx, doc, idx) in enumerate(cases):
+        res.evaluations += 1
+        a = impl[n]
+        res.nt(doc)
+        res.count(f'{style}/{ctx}')
+        got, tail = R.parse_events(a) if 'PANIC' not in a else ([], ['PANIC'])
+        scal = [e for e in got if e[0] == 'SC']
+        why = None
+        if tail[0] != 'DONE':
+            why = 'rejected: ' + (unhx(tail[2]) if tail[0] == 'ERR' else tail[0])
+        elif idx >= len(scal) or scal[idx][4] != tg_ or scal[idx][3] != style:
+            why = f'scalar value {scal[idx][4] if idx < len(scal) else None!r} (style {scal[idx][3] if idx < len(scal) else None}) where YAML assigns {tg_!r} (style {style})'
+        if why:
+            res.oracle_failures.append({'sig': usig(doc), 'what': why, 'reqs': [reqs[n]], 'input': repr(doc[:300]) + f' context {ctx}'})
+        if n < nm and model[n] != a and 'PANIC' not in a:
+            diff(res, reqs[n], a, model[n], 'evt')
+        if n % 5003 == 0:
+            res.samples.append({'target': tg_, 'style': style, 'context': ctx, 'document': doc[:120]})
+    return res
+
+
+@prop('C05', ["the expectation is computed from the line list by an independent implementation of YAML 1.2 §8.1 (lib/render.py block_ref_text)",
+              "theorems registered: see Props/C05.lean"])
+def c05(tier, rng):
+    res = Result()
+    ML = 3 if tier == 'quick' else 4
+    kinds = R.BLOCK_KINDS[:8] if tier == 'quick' else R.BLOCK_KINDS
+    res.rule = f"every line list of length <= {ML} over {len(kinds)} line kinds (text, syntax-looking, more-indented, blank) x {{literal, folded}} x {{strip, clip, keep}} x {{auto, explicit}} indentation x 5 parent contexts x header comment x final newline or not; non-trivial = at least one content line; distinct by document text"
+    res.corr_ops = ['evt str on every block scalar document']
+    res.exhaustive = True
+    cases = list(R.block_cases(ML, kinds))
+    reqs, exps = [], []
+    for c in cases:
+        ctx, style, chomp, combo, final_nl, explicit, comment = c
+        reqs.append('evt str 128 0 ' + hx(R.block_render(ctx, style, chomp, combo, final_nl, explicit, comment)))
+        exps.append(R.block_ref_text(style, chomp, combo))
+    impl = run_impl(reqs)
+    nm = len(reqs) if tier == 'thorough' else 30000
+    step = max(1, len(reqs) // nm)
+    msel = list(range(0, len(reqs), step))
+    model = dict(zip(msel, run_model([reqs[i] for i in msel])))
+    for n, c in enumerate(cases):
+        res.evaluations += 1
+        a = impl[n]
+        ctx, style, chomp, combo, final_nl, explicit, comment = c
+        content = any(k != 'e' for k, _ in combo)
+        if content:
+            res.nt(reqs[n])
+        res.count(f'{style}{chomp}/{ctx}/{"content" if content else "empty"}')
+        got, tail = R.parse_events(a) if 'PANIC' not in a else ([], ['PANIC'])
+        blk = [e for e in got if e[0] == 'SC' and e[3] in ('L', 'F')]
+        why = None
+        if tail[0] != 'DONE':
+            why = 'rejected: ' + (unhx(tail[2]) if tail[0] == 'ERR' else tail[0])
+        elif len(blk) != 1 or blk[0][4] != exps[n] or blk[0][3] != ('L' if style == '|' else 'F'):
+            why = f'block scalar value {blk[0][4] if blk else None!r} where YAML assigns {exps[n]!r}'
+        if why:
+            sig = usig(reqs[n])
+            if not content and chomp != 'strip' and tail[0] == 'DONE' and blk and blk[0][4] == '\n' + exps[n] * 0 and exps[n] in ('', ) :
+                sig = 'C05:contentless-clip-keep-at-end'
+            elif not content and tail[0] == 'DONE' and blk and chomp in ('clip', 'keep'):
+                sig = 'C05:contentless-clip-keep-at-end'
+            res.oracle_failures.append({'sig': sig, 'what': why, 'reqs': [reqs[n]], 'input': repr(unhx(reqs[n].split(' ')[4]))})
+        if n in model and model[n] != a and 'PANIC' not in a:
+            diff(res, reqs[n], a, model[n], 'evt')
+        if n % 20011 == 0:
+            res.samples.append({'document': unhx(reqs[n].split(' ')[4]), 'expected': exps[n]})
+    return res
+
+
+@prop('C06', ["each damage operator produces a stream that is ill-formed by the specification whatever precedes it (lib/render.py damage_stream); the 94 error cases of the official test suite are included",
+              "theorems registered: parser-level rejection theorems; see Props/C06.lean"])
+def c06(tier, rng):
+    res = Result()
+    res.rule = "17 damage operators (the classes of the property) applied to well-formed rendered streams + the yaml-test-suite error cases; non-trivial = all; distinct by text"
+    res.corr_ops = ['evt str on every damaged stream']
+    r = rng.fork('c06')
+    cases = []
+    for _ in range(1500 if tier == 'quick' else 50000):
+        t, _ = R.render_stream(r)
+        for w in R.DAMAGES:
+            d = R.damage_stream(r, t, w)
+            if d is not None:
+                cases.append((w, d))
+    for c in load_suite():
+        if c['fail']:
+            cases.append(('suite:' + c['id'], c['yaml']))
+    reqs = [f'evt str 128 0 {hx(d)}' for _, d in cases]
+    reqs2 = [f'lod y e {hx(d)}' for _, d in cases]
+    impl = run_impl(reqs)
+    impl2 = run_impl(reqs2)
+    model = run_model(reqs[:15000] if tier == 'quick' else reqs)
+    for n, (w, d) in enumerate(cases):
+        res.evaluations += 1
+        a = impl[n]
+        res.nt(d)
+        res.count(w.split(':')[0])
+        tail = split_line(a)[1]
+        if tail[0] != 'ERR' and 'PANIC' not in a:
+            res.oracle_failures.append({'sig': usig(d), 'what': f'ill-formed stream ({w}) was accepted as a complete event stream', 'reqs': [reqs[n]], 'input': repr(d[-300:])})
+        elif not impl2[n].startswith('ERR') and 'PANIC' not in impl2[n]:
+            res.oracle_failures.append({'sig': usig(d + 'lod'), 'what': f'ill-formed stream ({w}) was loaded without an error', 'reqs': [reqs2[n]], 'input': repr(d[-300:])})
+        if n < len(model) and model[n] != a and 'PANIC' not in a:
+            diff(res, reqs[n], a, model[n], 'evt')
+        if n % 5003 == 0:
+            res.samples.append({'operator': w, 'tail_of_text': d[-80:]})
+    return res
+
+
+@prop('C13', ["the expectation is the JSON value the text was serialised from (lib/render.py); numbers: integers within 64 bits as integers, everything else as binary64 of the decimal text",
+              "\\u escapes are generated for BMP non-surrogate characters only, as the property states",
+              "theorems registered: JSON string escapes decode (escape table), JSON literals and numbers resolve; see Props/C13.lean"])
+def c13(tier, rng):
+    res = Result()
+    res.rule = "random JSON values (depth <= 5, hostile strings as keys and values, boundary numbers) x {compact, pretty, random insignificant spaces/tabs/newlines}; nesting up to 254 and beyond; non-trivial = contains an object or array; distinct by text"
+    res.corr_ops = ['lod y e on every JSON text']
+    r = rng.fork('c13')
+    cases = []
+    for _ in range(10000 if tier == 'quick' else 350000):
+        v = R.gen_json(r, r.randint(0, 5))
+        for mode in ('compact', 'pretty', 'random'):
+            cases.append((v, mode, R.jser(r, v, mode)))
+    for d in (100, 200, 254):
+        v = ('n', '1')
+        for _ in range(d):
+            v = ('a', [v])
+        cases.append((v, 'compact', R.jser(r, v, 'compact')))
+    reqs = [f'lod y e {hx(t)}' for _, _, t in cases]
+    impl = run_impl(reqs)
+    nm = len(reqs) if tier == 'thorough' else 10000
+    model = run_model(reqs[:nm])
+    for n, (v, mode, t) in enumerate(cases):
+        res.evaluations += 1
+        a = impl[n]
+        if v[0] in ('a', 'o'):
+            res.nt(t)
+        res.count(mode)
+        want = ' '.join(canon_float(x) for x in R.json_expect(v))
+        why = None
+        if not a.startswith('OK'):
+            why = 'rejected: ' + (unhx(a.split(' ')[2]) if a.startswith('ERR') else a[:40])
+        elif a[3:] != want:
+            why = 'loaded tree differs from the JSON value'
+        if why:
+            sig = usig(t)
+            if '\t' in t and 'must be followed by a valid YAML whitespace' in why and colon_tab(t):
+                sig = 'C13:tab-after-colon-in-flow'
+            res.oracle_failures.append({'sig': sig, 'what': why, 'reqs': [reqs[n]], 'input': repr(t[:300]), 'detail': {'loaded': a[:300], 'json': want[:300]}})
+        if n < nm and canon_tree_line(model[n]) != a and 'PANIC' not in a:
+            diff(res, reqs[n], a, model[n], 'lod')
+        if n % 5003 == 0:
+            res.samples.append({'json': t[:160], 'mode': mode})
+    return res
+
+
+def colon_tab(t):
+    import re
+    return re.search(r':\t+[^ \n\t]', t) is not None
